@@ -1,0 +1,8 @@
+//go:build !verif
+
+package verifhook
+
+// Point is a no-op without the verif build tag.
+func Point(_ string, _ int, _ string) error {
+	return nil
+}
